@@ -57,12 +57,13 @@ def _impl(tier, seed, search):
     def values(spec, k=None, dtype=float):
         n = spec.n if k is None else k
         if dtype is int: return [int(x) for x in g.integers(-4, 5, size=n)]
+        if dtype is np.float32: return [float(x) / 8.0 for x in g.integers(-24, 25, size=n)]      # exactly representable in single precision
         if spec.kind == 'small': return list(g.uniform(-0.4, 0.4, size=n))
         if spec.kind == 'unit':
             v = g.normal(size=n); return list(v / np.linalg.norm(v))
         return list(g.normal(size=n))
-    def forms(vals):
-        a = np.array(vals, dtype=float)
+    def forms(vals, dt=float):
+        a = np.array(vals, dtype=dt)
         return {'list': list(vals), 'tuple': tuple(vals), 'array': a, 'row': a.reshape(1, -1), 'col': a.reshape(-1, 1)}
     def canon(r):
         if r is None: return None
@@ -80,14 +81,14 @@ def _impl(tier, seed, search):
     for name, (f, spec) in BASE.items():
         covered.add(name.split('(')[0].split('.')[-1])
         vec_pos = [i for i, s in enumerate(spec) if isinstance(s, V)]
-        for dtype in (float, int):
-            if dtype is int and any(isinstance(s, V) and s.kind != 'any' for s in spec): continue
+        for dtype in (float, int, np.float32):
+            if dtype is not float and any(isinstance(s, V) and s.kind != 'any' for s in spec): continue
             base_vals = [values(s, dtype=dtype) if isinstance(s, V) else s for s in spec]
             ref = run(f, [np.array(v, dtype=float) if isinstance(s, V) else v for v, s in zip(base_vals, spec)])
             for pos in vec_pos:
-                for fname, fv in forms(base_vals[pos]).items():
+                for fname, fv in forms(base_vals[pos], np.float32 if dtype is np.float32 else float).items():
                     args = [np.array(v, dtype=float) if isinstance(s, V) else v for v, s in zip(base_vals, spec)]
-                    args[pos] = fv if dtype is float or fname not in ('list', 'tuple') else type(fv)(base_vals[pos])
+                    args[pos] = fv if dtype is not int or fname not in ('list', 'tuple') else type(fv)(base_vals[pos])
                     got = run(f, args)
                     inp = dict(function=name, arg=pos, form=fname, dtype=dtype.__name__, value=base_vals[pos])
                     L.count('forms', key=(name, pos, fname, dtype.__name__)); L.sample(f'forms:{fname}', inp)
@@ -135,7 +136,7 @@ def _impl(tier, seed, search):
         'SO3.AngVec': (lambda v: SO3.AngVec(th, v), [V(3)]), 'SE3.AngVec': (lambda v: SE3.AngVec(th, v), [V(3)]), 'UQ.AngVec': (lambda v: UnitQuaternion.AngVec(th, v), [V(3)]),
         'SO3.EulerVec': (lambda v: SO3.EulerVec(v), [V(3)]), 'SE3.EulerVec': (lambda v: SE3.EulerVec(v), [V(3)]), 'UQ.EulerVec': (lambda v: UnitQuaternion.EulerVec(v), [V(3)]),
         'SO3.OA': (lambda o, a: SO3.OA(o, a), [V(3), V(3)]), 'SE3.OA': (lambda o, a: SE3.OA(o, a), [V(3), V(3)]), 'UQ.OA': (lambda o, a: UnitQuaternion.OA(o, a), [V(3), V(3)]),
-        'SO3.Exp': (lambda v: SO3.Exp(v), [V(3)]), 'SE3.Exp': (lambda v: SE3.Exp(v), [V(6)]), 'SE3.Delta': (lambda v: SE3.Delta(v), [V(6, 'small')]),
+        'SO3.Exp': (lambda v: SO3.Exp(v), [V(3)]), 'SE3.Exp': (lambda v: SE3.Exp(v), [V(6)]), 'SE2.Exp': (lambda v: SE2.Exp(v), [V(3)]), 'SE3.Delta': (lambda v: SE3.Delta(v), [V(6, 'small')]),
         'SE3.Rx(t=)': (lambda t: SE3.Rx(th, t=t), [V(3)]),
         'UnitQuaternion(v)': (lambda v: UnitQuaternion(v), [V(4)]), 'UnitQuaternion(s,v)': (lambda v: UnitQuaternion(0.5, v), [V(3)]), 'Quaternion(v)': (lambda v: Quaternion(v), [V(4)]),
         'Quaternion(s,v)': (lambda v: Quaternion(0.5, v), [V(3)]), 'Quaternion.Pure': (lambda v: Quaternion.Pure(v), [V(3)]), 'UQ.Vec3': (lambda v: UnitQuaternion.Vec3(v), [V(3, 'small')]),
@@ -157,7 +158,7 @@ def _impl(tier, seed, search):
                 if got != ref:
                     what = 'raises ' + got[1] if got[0] == 'exc' else 'gives a different result'
                     L.fail(f'class-form:{name}:{fname}', f'{name}: argument {pos} given as {fname} {what} (1-D array form: {"raises " + ref[1] if ref[0] == "exc" else "value"})', inp)
-            for k in (1, 2, 5, 7):       # an empty sequence is a legitimate empty list of values for the classes
+            for k in (1, 2, 3, 4, 5, 6, 7, 8):       # an empty sequence is a legitimate empty list of values for the classes
                 if k == spec[pos].n or (name in ('SE2(v3)', 'SE2(v2)') and k in (2, 3)) or (name in ('Twist3(v6)',) and k == 6): continue
                 if name in ('SO3.Exp',) and k in (1,): pass
                 args = [np.array(v, dtype=float) for v in base_vals]; args[pos] = list(g.normal(size=k))
@@ -208,6 +209,12 @@ def _impl(tier, seed, search):
         close(f'SO3.R{ax}', lambda: getattr(SO3, 'R' + ax)(a, 'deg'), lambda: getattr(SO3, 'R' + ax)(ar)); close(f'SE3.R{ax}', lambda: getattr(SE3, 'R' + ax)(a, 'deg'), lambda: getattr(SE3, 'R' + ax)(ar))
         close(f'UQ.R{ax}', lambda: getattr(UnitQuaternion, 'R' + ax)(a, 'deg').vec, lambda: getattr(UnitQuaternion, 'R' + ax)(ar).vec)
     close('rot2', lambda: b.rot2(a, 'deg'), lambda: b.rot2(ar)); close('trot2', lambda: b.trot2(a, 'deg'), lambda: b.trot2(ar))
+    tt_ = list(g.normal(size=3))
+    for ax in 'xyz':       # … also together with the translation option
+        close(f'trot{ax}(t=)', lambda: getattr(b, 'trot' + ax)(a, 'deg', t=tt_), lambda: getattr(b, 'trot' + ax)(ar, t=tt_))
+        close(f'SE3.R{ax}(t=)', lambda: getattr(SE3, 'R' + ax)(a, 'deg', t=tt_), lambda: getattr(SE3, 'R' + ax)(ar, t=tt_))
+        close(f'SE3.R{ax}(list, t=)', lambda: np.array([np.asarray(x_, float) for x_ in getattr(SE3, 'R' + ax)([a, a / 2], 'deg', t=tt_).data]), lambda: np.array([np.asarray(x_, float) for x_ in getattr(SE3, 'R' + ax)([ar, ar / 2], t=tt_).data]))
+    close('trot2(t=)', lambda: b.trot2(a, 'deg', t=tt_[:2]), lambda: b.trot2(ar, t=tt_[:2]))
     close('xyt2tr', lambda: b.xyt2tr([x, y, a], 'deg'), lambda: b.xyt2tr([x, y, ar]))
     for o in ('zyx', 'xyz', 'yxz', 'vehicle', 'arm', 'camera'):
         close(f'rpy2r[{o}]', lambda: b.rpy2r(a3, unit='deg', order=o), lambda: b.rpy2r(a3r, order=o)); close(f'rpy2tr[{o}]', lambda: b.rpy2tr(a3, unit='deg', order=o), lambda: b.rpy2tr(a3r, order=o))
@@ -305,6 +312,7 @@ def _impl(tier, seed, search):
         'SO3.Eul(unit=grad)': lambda: SO3.Eul(a3, unit='grad'), 'SO3.AngVec(unit=grad)': lambda: SO3.AngVec(a, vv, unit='grad'), 'UQ.AngVec(unit=grad)': lambda: UnitQuaternion.AngVec(a, vv, unit='grad'),
         'Twist3.exp(list, units=degrees)': lambda: Tw3_.Revolute([0, 0, 1], [1, 0, 0]).exp([10.0, 20.0], units='degrees'), 'Twist3.exp(scalar, units=grad)': lambda: Tw3_.Revolute([0, 0, 1], [1, 0, 0]).exp(10.0, units='grad'),
         'Twist2.exp(list, units=grad)': lambda: Tw2_.Revolute([1, 2]).exp([10.0, 20.0], units='grad'),
+        'trotx(unit=grad, t=)': lambda: b.trotx(a, 'grad', t=[1, 2, 3]), 'troty(unit=degrees, t=)': lambda: b.troty(a, 'degrees', t=[1, 2, 3]), 'trotz(unit=grad, t=)': lambda: b.trotz(a, 'grad', t=[1, 2, 3]),
         'getunit(unit=grad)': lambda: b.getunit(a, 'grad'), 'angvec2r(zero axis, unit=grad)': lambda: b.angvec2r(a, [0, 0, 0], unit='grad'),
         'angvec2tr(zero axis, unit=grad)': lambda: b.angvec2tr(a, [0, 0, 0], unit='grad'), 'SO3.AngVec(zero axis, unit=grad)': lambda: SO3.AngVec(a, [0, 0, 0], unit='grad'),
         'SO3.rpy(multi, order=xzy)': lambda: Xm.rpy(order='xzy'),
